@@ -24,7 +24,7 @@ from .. import shims
 from ..core import Report, Violation, collect, out_of_time, pmap, seed
 from ..symx import Budget, Ctx, SelInt, Stats, SymInt, Unsupported, _arm, explore, frac_of
 from ..trees import audit, kind, preorder
-from ..zeval import Undefined, ceval, close, powr_axioms, var, zeval, _ipow
+from ..zeval import MAX_UNFOLD, Undefined, ceval, close, powr_axioms, var, zeval, _ipow
 from ..shims import FACT, POWR
 from . import value as V
 
@@ -304,7 +304,7 @@ def ast_z3(a: Any, dom: List[Any]) -> Any:
         return l
     if k == "pow":
         ev = frac_of(z3.simplify(r))
-        if ev is not None and ev.denominator == 1 and abs(ev) <= 40:
+        if ev is not None and ev.denominator == 1 and abs(ev) <= MAX_UNFOLD:
             n = int(ev)
             if n >= 0:
                 return _ipow(l, n)
@@ -720,8 +720,8 @@ def run(prop: str, tier: str) -> int:
     lit["violations"] = [v for v in lit["violations"] if v.prop == prop]
     rep.absorb(lit)
     rep.bounds["literals"] = f"{len(TEMPLATES)} templates x {len(LITERALS)} literal spellings (int / float / beyond 2^53 / malformed)"
-    if prop == "C10":
-        from . import parser_state
+    from . import parser_state
 
-        parser_state.extend(rep, tier)
+    # characters through the public parse(text): C10 judges the error contract, C03 the accept/reject verdict
+    parser_state.extend(rep, tier, prop)
     return rep.finish(required_reach=["accept/accept", "reject/reject"])
